@@ -66,6 +66,23 @@ def probe_fdt(inp: Dict[str, Any]) -> Dict[str, Any]:
                 md.initialize(mol)
         finally:
             MDm.esdriver = old_
+    if inp.get("rebatch"):
+        # the same driver object initialised again for ANOTHER batch of the same tensor shape (other elements / order / padding pattern), settings unchanged:
+        # the noise amplitudes in force must be those of the CURRENT masses
+        import torch as _t
+        import seqm.MolecularDynamics as MDm
+        from seqm.Molecule import Molecule
+        from seqm.seqm_functions.constants import Constants
+        s2, x2, _, _ = esh.batch(inp["rebatch"])
+        sp2_ = {k: v for k, v in mol.seqm_parameters.items() if k != "elements"}
+        mol = Molecule(Constants(), sp2_, _t.as_tensor(x2), _t.as_tensor(s2))
+        old_ = MDm.esdriver
+        MDm.esdriver = mdh.StubEngine
+        try:
+            with contextlib.redirect_stdout(io.StringIO()):
+                md.initialize(mol)
+        finally:
+            MDm.esdriver = old_
     c1 = float(md.langevin_c1)
     c2 = md.langevin_c2.numpy()[..., 0]
     minv = mol.mass_inverse.numpy()[..., 0]
@@ -203,7 +220,17 @@ def probe_limits(inp: Dict[str, Any]) -> Dict[str, Any]:
     return {"ok": not bad, "observed": bad, "expected": "NVE limit; T=0 dissipative", "predicate": "", "fields": {"kinds": sorted(kinds)}}
 
 
-PROBES = {"fdt": probe_fdt, "mean_temperature": probe_mean_temperature, "limits": probe_limits}
+def probe_thermostat_resume(inp: Dict[str, Any]) -> Dict[str, Any]:
+    """a thermostatted run (Langevin / damped XL-BOMD / damped KSA) that is interrupted and resumed keeps its thermostat: files identical to the uninterrupted run"""
+    from . import c10, c11
+    sc = c11._scenario(dict(data=1, coordinates=1, velocities=1, forces=0, xyz=0, print=0, ckpt=2), inp.get("steps", 7), engine=inp["engine"], mols=("h2o",), stub=True, k=4, seed=inp.get("seed", 3))
+    sc["damp"] = inp["damp"]
+    sc["temp"] = inp.get("temp", 300.0)
+    r = c10.probe_history({"sc": sc, "crashes": [dict(step=inp.get("crash_step", 4), upto=inp.get("upto", 0), hard=False)]})
+    return {"ok": r["ok"], "observed": r["observed"], "expected": "resumed thermostatted run == uninterrupted run", "predicate": "bitwise", "fields": {"kinds": ["thermostat_resume"] if not r["ok"] else [], "engine": inp["engine"], "dt_over_tau": 0.5 / inp["damp"]}}
+
+
+PROBES = {"thermostat_resume": probe_thermostat_resume, "fdt": probe_fdt, "mean_temperature": probe_mean_temperature, "limits": probe_limits}
 
 
 def corr_c1c2(ctx: Ctx, drv):
@@ -283,6 +310,13 @@ def gen_cases(ctx: Ctx):
         dt = float(rng.choice([0.25, 0.5, 1.0]))
         cases.append(("fdt", {"names": ["h2o"], "dt": dt, "damp": float(dt / 10 ** rng.uniform(-3, 0.5)), "temp": 300.0, "seed": int(rng.integers(0, 10**6)), "stat": False,
                               "reconfigure": {"dt": float(rng.choice([0.1, 2.0])), "damp": float(rng.choice([5.0, 500.0])), "temp": 77.0}}))
+    # driver object re-used for another batch of the same shape (H2O -> H2S; permuted batch; other padding pattern)
+    reb = [(["h2o"], ["h2s"]), (["h2o", "h2"], ["h2", "h2o"]), (["ch4", "h2o"], ["sih4", "h2s"])]
+    for a, b in (reb if ctx.thorough else [reb[ctx.seed % 3]]):
+        dt = float(rng.choice([0.25, 0.5, 1.0]))
+        cases.append(("fdt", {"names": a, "rebatch": b, "dt": dt, "damp": float(dt / 10 ** rng.uniform(-2, 0)), "temp": 300.0, "seed": int(rng.integers(0, 10**6)), "stat": False}))
+    for eng in (["langevin", "xl", "ksa"] if ctx.thorough else [["xl", "ksa", "langevin"][ctx.seed % 3], "xl" if ctx.seed % 3 else "ksa"]):
+        cases.append(("thermostat_resume", {"engine": eng, "damp": float(rng.choice([5.0, 15.0, 40.0])), "temp": float(rng.choice([0.0, 300.0])), "seed": int(rng.integers(1, 999)), "crash_step": int(rng.integers(3, 7)), "upto": int(rng.integers(0, 8))}))
     cases.append(("mean_temperature", {"names": ["h2o"], "dt": 0.5, "damp": 5.0, "temp": 300.0, "steps": 6000 if ctx.thorough else 2500, "seed": int(rng.integers(0, 999))}))
     if ctx.thorough:
         cases.append(("mean_temperature", {"names": ["ch4"], "dt": 0.25, "damp": 2.0, "temp": 500.0, "steps": 8000, "seed": int(rng.integers(0, 999))}))
